@@ -33,6 +33,7 @@
 From Coq Require Import List String Permutation.
 From Sheens Require Import Model.SioRecorder Spec.SioSpec Proofs.SioRouting Proofs.SioPersist Proofs.SioRestart
      Proofs.SioCommute Proofs.SioRecorderFacts Proofs.SioHistory Proofs.SioUnwedged Proofs.SioUnresolved.
+From Sheens Require Proofs.SioIdsTie.
 Import ListNotations.
 Open Scope string_scope.
 
@@ -182,6 +183,15 @@ Theorem C15_any_crew_needs_captain :
                        (run_outputs rcfg rreact rdecode rresolves rcfg_eqb ord_id 10 (r_boot []) h2).
 Proof. exact any_crew_needs_unwedged. Qed.
 Print Assumptions C15_any_crew_needs_captain.
+
+(** crew operations are messages to the captain, and a store holds the two
+    service machines under their ids: the ids the model uses are read from
+    the source of the tree under test (Gen/Names.v) and are the documented
+    ones, which the examples below write in their messages *)
+Theorem C15_service_ids_are_documented :
+  timers_id = "timers" /\ captain_id = "captain" /\ timers_id <> captain_id.
+Proof. exact SioIdsTie.service_ids_documented. Qed.
+Print Assumptions C15_service_ids_are_documented.
 
 (** the code before the repairs D13 and D42 (SetMachine did not apply the
     state of an existing machine; creating a machine without specification
